@@ -331,13 +331,14 @@ def emit():
     w("pub fn fmt_dyn<T: core::fmt::Display>(x: &T, s: &FmtSpec) -> String {")
     w("    let w = s.width.unwrap_or(0);")
     w("    let p = s.precision.unwrap_or(0);")
-    w("    match (s.fill_align, s.plus, s.zero, s.width.is_some(), s.precision.is_some()) {")
+    w("    match (s.fill_align, s.plus, s.zero, s.width.is_some(), s.precision.is_some(), s.alt) {")
     for fi, (f, a) in enumerate(fills):
         for plus in (False, True):
             for zero in (False, True):
                 for hw in (False, True):
                     for hp in (False, True):
-                        spec = f + a + ("+" if plus else "") + ("0" if zero else "")
+                      for alt in (False, True):
+                        spec = f + a + ("+" if plus else "") + ("#" if alt else "") + ("0" if zero else "")
                         if hw:
                             spec += "w$"
                         if hp:
@@ -347,8 +348,8 @@ def emit():
                             args += ", w = w"
                         if hp:
                             args += ", p = p"
-                        w("        (%d, %s, %s, %s, %s) => format!(\"{:%s}\", %s)," % (
-                            fi, str(plus).lower(), str(zero).lower(), str(hw).lower(), str(hp).lower(),
+                        w("        (%d, %s, %s, %s, %s, %s) => format!(\"{:%s}\", %s)," % (
+                            fi, str(plus).lower(), str(zero).lower(), str(hw).lower(), str(hp).lower(), str(alt).lower(),
                             spec, args))
     w("        _ => panic!(\"fmt_dyn: fill/align index out of range\"),")
     w("    }")
